@@ -1,7 +1,7 @@
 (* Ops/C03.v — protocol entry points for property C03 (single-peakedness of strict profiles).
    payload conventions: ranking = flat list of N (best first); profile = list of rankings; dtype as in Ops/C11. *)
 From Coq Require Import List ZArith NArith String.
-From PrefVerif Require Import Lib.Val Model.SP.
+From PrefVerif Require Import Lib.Val Model.SP Model.ELO.
 Import ListNotations.
 Open Scope string_scope.
 
@@ -20,5 +20,9 @@ Definition op_check_axis (v : val) : val :=
 Definition op_run (v : val) : val :=
   eresult ebool (is_single_peaked_model (d_dt (dnth 0 v)) (d_alts (dnth 1 v)) (d_rankings (dnth 2 v))).
 
+(* (alts rankings-in-storage-order) -> result (verdict axis): the mirror of is_single_peaked (Model/ELO.v) *)
+Definition op_elo (v : val) : val :=
+  eresult (epair ebool (elist eN)) (elo (d_alts (dnth 0 v)) (d_rankings (dnth 1 v))).
+
 Definition ops : optable :=
-  [ ("c03.decide", op_decide); ("c03.check_axis", op_check_axis); ("c03.run", op_run) ].
+  [ ("c03.decide", op_decide); ("c03.check_axis", op_check_axis); ("c03.run", op_run); ("c03.elo", op_elo) ].
